@@ -600,9 +600,13 @@ func encodeXtext(raw string) string {
 		case ch >= '!' && ch <= '~' && ch != '+' && ch != '=':
 			// printable non-space US-ASCII except '+' and '='
 			out.WriteRune(ch)
+		case ch > '\x7F':
+			// xtext can only represent US-ASCII octets; UTF-8 text (RFC
+			// 6531) is sent as is.
+			out.WriteRune(ch)
 		default:
-			out.WriteRune('+')
-			out.WriteString(strings.ToUpper(strconv.FormatInt(int64(ch), 16)))
+			// hexchar is "+" followed by exactly two upper case hex digits
+			fmt.Fprintf(&out, "+%02X", ch)
 		}
 	}
 	return out.String()
@@ -615,8 +619,8 @@ func encodeUTF8AddrXtext(raw string) string {
 
 	for _, ch := range raw {
 		switch {
-		case ch >= '!' && ch <= '~' && ch != '+' && ch != '=':
-			// printable non-space US-ASCII except '+' and '='
+		case ch >= '!' && ch <= '~' && ch != '+' && ch != '=' && ch != '\\':
+			// printable non-space US-ASCII except '+', '=' and '\'
 			out.WriteRune(ch)
 		default:
 			out.WriteRune('\\')
@@ -636,8 +640,8 @@ func encodeUTF8AddrUnitext(raw string) string {
 
 	for _, ch := range raw {
 		switch {
-		case ch >= '!' && ch <= '~' && ch != '+' && ch != '=':
-			// printable non-space US-ASCII except '+' and '='
+		case ch >= '!' && ch <= '~' && ch != '+' && ch != '=' && ch != '\\':
+			// printable non-space US-ASCII except '+', '=' and '\'
 			out.WriteRune(ch)
 		case ch <= '\x7F':
 			// other ASCII: CTLs, space and specials
